@@ -7,6 +7,7 @@ pub mod audit;
 pub mod price;
 pub mod git;
 pub mod out;
+pub mod fmt;
 pub mod run;
 
 pub fn dispatch(case: &Value, dir: &Path) -> Value {
@@ -20,6 +21,7 @@ pub fn dispatch(case: &Value, dir: &Path) -> Value {
         Some("git") => git::op_git(case, dir),
         Some("bufw") => out::op_bufw(case),
         Some("wfail") => out::op_wfail(case, dir),
+        Some("fmt") => fmt::op_fmt(case, dir),
         Some(op) => json!({"r": "BADCASE", "msg": format!("unknown op {op}")}),
         None => json!({"r": "BADCASE", "msg": "no op"}),
     }
